@@ -241,6 +241,22 @@ class Check:
                    "model": _jsonable(o.model), "solver_output": o.detail[:2000], "native": rep}))
 
     # ------------------------------------------------------------------ proof jobs in worker processes
+    def guard(self, step, *args, **kw):
+        """run one obligation-generating step of a contract.  If the sidecar contract cannot be applied to the
+        current shape of the code (an unsupported construct, or the contract reaches for a closure cell / attribute /
+        path shape that a refactor removed) the step is UNDECIDED -- never a violation, never a crash of the whole
+        check: the remaining steps and the bounded tier still run."""
+        from .symex import Unsupported
+        label = getattr(step, "__name__", str(step))
+        try:
+            return step(self, *args, **kw)
+        except Unsupported as u:
+            self.undecided.append(f"{self.prop}/{label}: UNSUPPORTED {u}")
+        except Exception as e:
+            tb = traceback.format_exc(limit=4).strip().splitlines()
+            self.undecided.append(f"{self.prop}/{label}: CONTRACT-MISFIT the sidecar contract does not fit the current code "
+                                  f"shape ({type(e).__name__}: {e}) @ {tb[-2].strip() if len(tb) > 1 else ''}")
+
     def parallel(self, modname, funcname, arglist, workers=16):
         """run ``modname.funcname(sub_check, *args)`` for every args in worker processes; each worker
         generates its obligations from the current source, discharges them and replays counterexamples;
@@ -253,7 +269,9 @@ class Check:
             results = pool.map(_proof_worker, jobs, chunksize=1)
         for job, res in zip(jobs, results):
             if "crash" in res:
-                self.errors.append(f"proof job {funcname}{job[5]!r} crashed: {res['crash']}")
+                first = res["crash"].splitlines()[0]
+                self.undecided.append(f"{self.prop}/{funcname}{job[5]!r}: CONTRACT-MISFIT the sidecar contract does not fit "
+                                      f"the current code shape ({first})")
                 continue
             for od in res["obligations"]:
                 o = Obligation(od["name"], od["kind"], od.get("function"))
